@@ -100,8 +100,13 @@ impl PhoneticSuggestion {
                     let key = &middle[..(middle.len() - suffix_key.len())];
                     if let Some(cache) = self.cache.get(key) {
                         for base in cache {
-                            let base_rmc = base.to_string().chars().last().unwrap(); // Right most character.
-                            let suffix_lmc = suffix.chars().next().unwrap(); // Left most character.
+                            // An empty item (or suffix) can't be joined.
+                            let (base_rmc, suffix_lmc) =
+                                match (base.to_string().chars().last(), suffix.chars().next()) {
+                                    // Right most character of the base and left most of the suffix.
+                                    (Some(base_rmc), Some(suffix_lmc)) => (base_rmc, suffix_lmc),
+                                    _ => continue,
+                                };
                             let mut word = String::with_capacity(middle.len() * 3);
                             word.push_str(base.to_string());
                             match base_rmc {
@@ -276,8 +281,11 @@ impl PhoneticSuggestion {
                     let key = &string.word()[..len - test.len()];
 
                     if let Some(base) = selections.get(key) {
-                        let rmc = base.chars().last().unwrap();
-                        let suffix_lmc = suffix.chars().next().unwrap();
+                        // An empty selection (or suffix) can't be joined.
+                        let (rmc, suffix_lmc) = match (base.chars().last(), suffix.chars().next()) {
+                            (Some(rmc), Some(suffix_lmc)) => (rmc, suffix_lmc),
+                            _ => continue,
+                        };
                         selected.push_str(base);
 
                         match rmc {
